@@ -662,6 +662,81 @@ class EvHarness:
         self.rec(ctx, uid + "/same-arguments", got.get("action") is action and got.get("state") is st0 and (name == "schedule" or got.get("duetime") is d))
         self.rec(ctx, uid + "/returns-its-disposable", isinstance(res, Opaque) and res.name == "from-the-event-loop")
 
+    # -- ThreadPoolScheduler: a NewThreadScheduler whose "threads" are submissions to one executor --------------------------------------
+    def run_threadpool(self, ctx):
+        """ThreadPoolScheduler(max_workers): ONE ThreadPoolExecutor(max_workers=max_workers); NewThreadScheduler.__init__ gets a thread factory;
+        thread_factory(target) is a startable whose start() submits exactly `target`, once, to that executor (assumed contract of the executor:
+        a submitted callable runs once on a pool thread) and whose cancel() cancels that submission; everything else is NewThreadScheduler's."""
+        import ast as _ast
+        PFILE = "reactivex/scheduler/threadpoolscheduler.py"
+        w = self.w = EWorld(self)
+        it = self.it = Interp(self.loader, ctx, w)
+        uid = f"{PFILE}::ThreadPoolScheduler"
+        execs, inits, log = [], [], []
+
+        def mk_exec(it_, a, k):
+            e = Opaque("executor", f"executor#{len(execs) + 1}", args=list(a), kwargs=dict(k))
+            execs.append(e)
+            return e
+        it.externals["concurrent.futures.ThreadPoolExecutor"] = Native("ThreadPoolExecutor", mk_exec)
+        orig_call = w.call
+
+        def wcall(it_, o, method, args, kwargs):
+            if o.kind == "executor" and method == "submit":
+                fut = Opaque("future", f"future#{len(log) + 1}")
+                log.append(("submit", o, list(args), dict(kwargs), fut))
+                return fut
+            if o.kind == "future" and method == "cancel":
+                log.append(("cancel", o))
+                return True
+            return orig_call(it_, o, method, args, kwargs)
+        w.call = wcall
+        w.truthy = lambda it_, o: True
+
+        def hook(it_, f, args, kwargs):
+            fn = f.func if isinstance(f, BoundMethod) else f
+            q = getattr(fn, "qualname", None) if isinstance(fn, Closure) else None
+            if q == "NewThreadScheduler.__init__":
+                inits.append((list(args), dict(kwargs)))
+                return None
+            return self.hook(it_, f, args, kwargs)
+        it.call_hook = hook
+        cls = it.module_get("reactivex.scheduler.threadpoolscheduler", "ThreadPoolScheduler")
+        mw = ctx.fresh("max_workers", "val")
+        given = ctx.choose(2, "max_workers given") == 1
+        o = it.call(cls, [mw] if given else [], {})
+        ok = len(execs) == 1 and not execs[0].attrs["args"] and set(execs[0].attrs["kwargs"]) == {"max_workers"}
+        self.rec(ctx, uid + ".__init__/one-executor-with-the-requested-number-of-workers", ok and (execs[0].attrs["kwargs"]["max_workers"] is mw if given
+                                                                                                  else execs[0].attrs["kwargs"]["max_workers"] is None),
+                 detail=f"{[(e.attrs['args'], e.attrs['kwargs']) for e in execs]}")
+        tf = None
+        if len(inits) == 1:
+            a = [x for x in inits[0][0] if x is not o] + list(inits[0][1].values())
+            tf = a[0] if len(a) == 1 else None
+        self.rec(ctx, uid + ".__init__/initialises-the-new-thread-scheduler-with-a-thread-factory", isinstance(tf, Closure), detail=f"{inits}")
+        if not isinstance(tf, Closure) or not execs:
+            return
+        target = Opaque("callback", "target")
+        th = it.call(tf, [target], {})
+        self.rec(ctx, uid + ".thread_factory/builds-a-startable-without-starting-it", isinstance(th, Obj) and not log, detail=f"{th!r}; {log}")
+        if not isinstance(th, Obj):
+            return
+        if ctx.choose(2, "cancelled before it was started") == 1:
+            it.call(it.get_attr(th, "cancel"), [], {})
+            self.rec(ctx, uid + ".ThreadPoolThread.cancel/before-start-does-nothing", not log)
+            return
+        it.call(it.get_attr(th, "start"), [], {})
+        subs = [e for e in log if e[0] == "submit"]
+        self.rec(ctx, uid + ".ThreadPoolThread.start/submits-exactly-the-target-once-to-the-scheduler's-executor",
+                 len(subs) == 1 and subs[0][1] is execs[0] and subs[0][2] == [target] and not subs[0][3], detail=f"{log}")
+        if subs:
+            it.call(it.get_attr(th, "cancel"), [], {})
+            cs = [e for e in log if e[0] == "cancel"]
+            self.rec(ctx, uid + ".ThreadPoolThread.cancel/cancels-that-submission", len(cs) == 1 and cs[0][1] is subs[0][4])
+        node = self.loader.find(PFILE, "ThreadPoolScheduler")
+        defs = sorted(n.name for n in node.body if isinstance(n, (_ast.FunctionDef, _ast.AsyncFunctionDef)))
+        self.rec(ctx, uid + "/overrides-nothing-of-the-new-thread-scheduler", defs == ["__init__"], detail=f"methods defined: {defs}")
+
     # -- TimeoutScheduler ----------------------------------------------------------------------------------------------------
     def run_timeout(self, ctx, name):
         w = self.w = EWorld(self)
@@ -818,6 +893,7 @@ class EvHarness:
               ("schedule_relative", lambda c: self.run_delegation(c, "schedule_relative")), ("dispose", self.run_dispose), ("run", self.run_run)]
         for n in ("schedule", "schedule_relative", "schedule_absolute"):
             sc.append((f"newthread.{n}", lambda c, _n=n: self.run_newthread(c, _n)))
+        sc.append(("threadpool", self.run_threadpool))
         if prop != "C31":
             for n in ("schedule", "schedule_relative", "schedule_absolute"):
                 sc.append((f"timeout.{n}", lambda c, _n=n: self.run_timeout(c, _n)))
@@ -827,7 +903,7 @@ class EvHarness:
     def run(self, prop="C31"):
         t0 = time.time()
         try:
-            files = [(EFILE, "EventLoopScheduler"), (NFILE, "NewThreadScheduler")] + ([(TFILE, "TimeoutScheduler"), (IFILE, "ImmediateScheduler")] if prop != "C31" else [])
+            files = [(EFILE, "EventLoopScheduler"), (NFILE, "NewThreadScheduler"), ("reactivex/scheduler/threadpoolscheduler.py", "ThreadPoolScheduler")] + ([(TFILE, "TimeoutScheduler"), (IFILE, "ImmediateScheduler")] if prop != "C31" else [])
             for rel, cname in files:
                 node = self.loader.find(rel, cname)
                 for q, n in all_functions(node, cname):
